@@ -188,24 +188,27 @@ int snoopy_util_file_getSmallTextFileContent (char const * const filePath, char 
  * Description:
  *     A write can raise a signal in the writer: SIGPIPE when the reader of a
  *     pipe or socket is gone, SIGXFSZ when a file has reached the file size
- *     limit (ulimit -f) of the process. The calling program must not be killed
- *     just because its exec() is being logged, therefore these two signals are
- *     blocked around the write, and if the write has raised one, it is consumed
- *     (the write itself reports EPIPE or EFBIG). A signal that was already
- *     pending beforehand is left alone.
+ *     limit (ulimit -f) of the process, SIGTTOU when a background job writes to
+ *     a terminal that has TOSTOP set. The calling program must not be killed or
+ *     stopped just because its exec() is being logged, therefore these signals
+ *     are blocked around the write, and if the write has raised one, it is
+ *     consumed (the write itself reports EPIPE or EFBIG; a terminal accepts the
+ *     write of a process that blocks SIGTTOU). A signal that was already pending
+ *     beforehand is left alone.
  */
 static void snoopy_util_file_signalShield_enter (sigset_t * const shieldSet, sigset_t * const pendingBefore, sigset_t * const callerSigMask)
 {
     sigemptyset(shieldSet);
     sigaddset(shieldSet, SIGPIPE);
     sigaddset(shieldSet, SIGXFSZ);
+    sigaddset(shieldSet, SIGTTOU);
     sigpending(pendingBefore);
     sigprocmask(SIG_BLOCK, shieldSet, callerSigMask);
 }
 
 static void snoopy_util_file_signalShield_leave (sigset_t const * const pendingBefore, sigset_t const * const callerSigMask)
 {
-    static const int shieldedSignals[] = { SIGPIPE, SIGXFSZ };
+    static const int shieldedSignals[] = { SIGPIPE, SIGXFSZ, SIGTTOU };
     struct timespec  noWait = {0, 0};
     sigset_t         pendingNow;
     sigset_t         raisedByUs;
@@ -225,7 +228,7 @@ static void snoopy_util_file_signalShield_leave (sigset_t const * const pendingB
 
 
 /*
- * writev() that cannot raise SIGPIPE or SIGXFSZ in the calling program
+ * writev() that cannot raise SIGPIPE, SIGXFSZ or SIGTTOU in the calling program
  *
  * Params:
  *     fd, iov, iovcnt:   As for writev()
